@@ -50,8 +50,16 @@ macro_rules! out {
     ($($a:tt)*) => { $crate::engine::outln(&format!($($a)*)) };
 }
 
-pub const VERIF_DIR: &str = "/verif";
-pub const REPO_DIR: &str = "/repo";
+/// where replays, known findings, data, evidence and failures live (overridable for scratch
+/// mutant runs that must not touch /verif)
+pub fn verif_dir() -> PathBuf {
+    PathBuf::from(std::env::var("VERIF_HOME").unwrap_or_else(|_| "/verif".to_string()))
+}
+/// the repository the harness was built against (only used to read source lines for panic
+/// signatures)
+pub fn repo_dir() -> PathBuf {
+    PathBuf::from(std::env::var("VERIF_REPO").unwrap_or_else(|_| "/repo".to_string()))
+}
 
 #[derive(Clone, Copy, PartialEq, Eq, Debug)]
 pub enum Tier {
@@ -172,7 +180,8 @@ pub fn panic_signature(p: &PanicRec) -> String {
 }
 
 pub fn rel_file(file: &str) -> String {
-    if let Some(r) = file.strip_prefix("/repo/") {
+    let repo = format!("{}/", repo_dir().display());
+    if let Some(r) = file.strip_prefix(&repo) {
         r.to_string()
     } else if let Some(i) = file.find("/registry/src/") {
         // registry crate: keep crate-relative path
@@ -186,14 +195,14 @@ pub fn rel_file(file: &str) -> String {
 }
 
 pub fn is_repo_file(file: &str) -> bool {
-    file.starts_with("/repo/") || (file.starts_with("src/") && Path::new(REPO_DIR).join(file).exists())
+    file.starts_with(&format!("{}/", repo_dir().display())) || (file.starts_with("src/") && repo_dir().join(file).exists())
 }
 
 fn source_line(file: &str, line: u32) -> String {
     let path = if file.starts_with('/') {
         PathBuf::from(file)
     } else {
-        Path::new(REPO_DIR).join(file)
+        repo_dir().join(file)
     };
     if !is_repo_file(file) {
         return String::new();
@@ -252,7 +261,7 @@ pub struct Known {
 }
 
 pub fn load_known() -> Vec<Known> {
-    let path = Path::new(VERIF_DIR).join("KNOWN_FINDINGS.txt");
+    let path = verif_dir().join("KNOWN_FINDINGS.txt");
     let mut out = Vec::new();
     if let Ok(s) = std::fs::read_to_string(path) {
         for l in s.lines() {
@@ -387,7 +396,7 @@ fn truncate_json(v: &J, budget: usize) -> J {
 }
 
 pub fn write_failure_file(prop: &str, case_json: &str, reason: &str, tag: &str) -> PathBuf {
-    let dir = Path::new(VERIF_DIR).join("failures").join(prop);
+    let dir = verif_dir().join("failures").join(prop);
     let _ = std::fs::create_dir_all(&dir);
     let h = hash_str(case_json);
     let path = dir.join(format!("{}-{:016x}.json", tag, h));
@@ -498,7 +507,7 @@ fn eval_case<P: Prop>(p: &P, case: &P::Case, known: &[Known], stats: &Stats, rec
 }
 
 pub fn replay_dir(prop: &str) -> PathBuf {
-    Path::new(VERIF_DIR).join("replays").join(prop)
+    verif_dir().join("replays").join(prop)
 }
 
 fn load_case<C: DeserializeOwned>(path: &Path) -> Result<C, String> {
@@ -730,7 +739,7 @@ pub fn run<P: Prop>(p: &P, tier: Tier) -> i32 {
         "wall_s": wall,
         "violations": violations.len(),
     });
-    let evdir = Path::new(VERIF_DIR).join("evidence");
+    let evdir = verif_dir().join("evidence");
     let _ = std::fs::create_dir_all(&evdir);
     if let Err(e) = std::fs::write(evdir.join(format!("{}.json", p.id())), serde_json::to_string_pretty(&ev).unwrap()) {
         eprintln!("INFRA: cannot write evidence: {}", e);
